@@ -30,6 +30,7 @@ type Engine struct {
 	assumed  map[string]bool // assumed contracts used (extern models, trusted contracts)
 	curRoot  *ssa.Function
 	usedSpecs map[string]*SpecFunc
+	curInstr  ssa.Instruction
 }
 
 type deferred struct {
@@ -378,6 +379,10 @@ func (e *Engine) Assert(st *State, fr *Frame, kind, site string, cond Term) {
 		return
 	}
 	st.emit(&Node{Kind: NAssert, T: cond, Name: name})
+	if cond.S == "false" {
+		return
+	}
+	st.learn(cond)
 }
 
 func (e *Engine) note(s string) {
@@ -407,6 +412,14 @@ func (e *Engine) fork(st *State, c Term, yes, no func(*State)) {
 	}
 	if c.S == "false" {
 		no(st)
+		return
+	}
+	if v, ok := st.known(c); ok {
+		if v {
+			yes(st)
+		} else {
+			no(st)
+		}
 		return
 	}
 	e.paths++
@@ -567,6 +580,7 @@ func (e *Engine) runInstrs(st *State, fr *Frame, b *ssa.BasicBlock, i int, k con
 			return
 		}
 		in := b.Instrs[i]
+		e.curInstr = in
 		switch x := in.(type) {
 		case *ssa.If:
 			c := e.get(st, fr, x.Cond).(Term)
